@@ -2,7 +2,7 @@
 import ast
 import z3
 from . import smt, ropes
-from .values import Unsupported, V, VInt, VBool, VNone, NONE, VFloat, Seg, VSeq, VTuple, VRef, VFunc, VClass, \
+from .values import LazyInit, Unsupported, V, VInt, VBool, VNone, NONE, VFloat, Seg, VSeq, VTuple, VRef, VFunc, VClass, \
     VModule, VOpaque, VExc, HeapObj, is_conc, zint, zbool, simp
 from .symexec import PathEnd, ReturnSig, BreakSig, ContinueSig, PyExc, Frame, State
 from .extract import dec
@@ -62,7 +62,7 @@ class Interp:
         if k == "module":
             return VModule(e["v"])
         if k == "other":
-            return VOpaque(e["v"])
+            return VOpaque(e["v"], z3.IntVal(e["oid"])) if "oid" in e else VOpaque(e["v"])
         return self.from_py(dec(e))
 
     def truthy(self, v):
@@ -294,6 +294,12 @@ class Interp:
             if is_conc(t):
                 return self.eval(e.body if t else e.orelse, fr)
             a, b = self.eval(e.body, fr), self.eval(e.orelse, fr)
+            if isinstance(a, VSeq) and isinstance(b, VSeq):
+                # sequence-valued choice: keep the rope of the branch the path condition already fixes
+                if self.st.proves(zbool(t)):
+                    return a
+                if self.st.proves(z3.Not(zbool(t))):
+                    return b
             return self.ite(t, a, b)
         if self.st.decide(self.truthy(c)):
             return self.eval(e.body, fr)
@@ -506,7 +512,9 @@ class Interp:
                     x = ropes.index_norm(st, item, 0)
                     vals = cc if isinstance(cc, bytes) else [ord(ch) for ch in cc]
                     return simp(z3.Or(*[zint(x) == c for c in vals]))
-            return VOpaqueBool(st, "contains")
+            # substring test on symbolic text: an uninterpreted (but deterministic) predicate of the two values
+            f = z3.Function("uf_substring_of", smt.Seq, smt.Seq, smt.Bool)
+            return f(ropes.seq_term(st, item), ropes.seq_term(st, container))
         if isinstance(container, VSeq) and isinstance(item, VInt) and container.pytype != "str":
             cc = ropes.conc_value(container)
             if cc is not None:
@@ -664,6 +672,12 @@ class Interp:
                         i = j + 1
                     return simp(tot)
             return self.bitfun(smt.band, zx, zy)
+        if isinstance(op, (ast.BitOr, ast.BitXor)) and (is_conc(x) or is_conc(y)) \
+                and 0 <= (x if is_conc(x) else y) < 2 ** 64:
+            # exact: x | c = x + c - (x & c),  x ^ c = x + c - 2 (x & c)  (two's complement identities, any sign)
+            both = self.int_binop(ast.BitAnd(), x, y, fr, site)
+            k = 1 if isinstance(op, ast.BitOr) else 2
+            return simp(zx + zy - k * zint(both))
         if isinstance(op, ast.BitOr):
             return self.bitfun(smt.bor, zx, zy)
         if isinstance(op, ast.BitXor):
@@ -1035,6 +1049,11 @@ class Interp:
                 if isinstance(c, str):
                     return [ropes.const_seq(ch) for ch in c]
                 return [VInt(b) for b in c]
+        try:
+            from .loops import concrete_items
+            return concrete_items(self, v)
+        except Unsupported:
+            pass
         raise Unsupported("iteration over non-concrete %s" % self.type_name(v))
 
     def e_Lambda(self, e, fr):
@@ -1077,6 +1096,8 @@ class Interp:
         if isinstance(base, VRef):
             o = st.heap[base.ref]
             if o.kind == "obj":
+                if name == "__class__":
+                    return VClass(o.cls)
                 return self.get_field(base, name, fr, site)
             return VFunc("%s.%s" % ({"slist": "list", "sdict": "dict", "adict": "dict"}.get(o.kind, o.kind), name), base)
         if isinstance(base, VSeq):
@@ -1100,6 +1121,13 @@ class Interp:
                 return ropes.const_seq(base.qualname.rsplit(".", 1)[-1])
             return VFunc(base.qualname + "." + name)
         if isinstance(base, VOpaque):
+            if name == "__class__":
+                return VClass(base.tag)
+            osp = getattr(E, "opaque_attr_specs", {}).get(base.tag, {})
+            if name in osp:
+                # data attribute of an opaque library object given by a specification expression over `self`
+                from .calls import spec_frame
+                return E.eval_spec_in(self, osp[name], spec_frame(self, None, {"self": base}, None))
             oa = getattr(E, "opaque_attrs", {}).get(base.tag, {})
             if name in oa:
                 # data attribute of an opaque library object (deterministic per object: cached on the value)
@@ -1147,6 +1175,9 @@ class Interp:
                 # object allocated after the snapshot
                 return o.fields[name]
             if name in o.init:
+                if isinstance(o.init[name], LazyInit):
+                    li = o.init[name]
+                    o.init[name] = self.fresh_of_type(li.ty, li.hint)
                 return o.init[name]
         elif name in o.fields:
             if self.E.monitors and fr is not None and not fr.spec:
@@ -1198,7 +1229,7 @@ class Interp:
                     ty = self.E.field_type(o.cls, name)
                     if ty is not None:
                         # remember the initial (pre-state) value for old(...)
-                        o.init[name] = self.fresh_of_type(ty, "%s.%s" % (self.obj_hint(base), name))
+                        o.init[name] = self.init_value(ty, "%s.%s" % (self.obj_hint(base), name))
                 o.fields[name] = value
                 if self.st.held is not None:
                     self.E.on_field_write(self, base, name, fr)
@@ -1254,6 +1285,9 @@ class Interp:
             return VSeq([Seg("A", t, smt.slen(t))], ty)
         if ty == "none":
             return NONE
+        if ty.startswith("maybe["):
+            # attribute that may be absent altogether (hasattr false): represented like an optional value
+            ty = "opt[" + ty[6:]
         if ty.startswith("opt[") or ty.startswith("union["):
             inner = split_top(ty[ty.index("[") + 1:-1])
             alts = (["none"] + inner) if ty.startswith("opt[") else inner
@@ -1296,6 +1330,12 @@ class Interp:
         if ty.startswith("class:"):
             return VClass(ty[6:])
         raise Unsupported("type %s" % ty)
+
+    def init_value(self, ty, hint):
+        """pre-state value of a field first touched by a write: optional/union types are materialised lazily"""
+        if ty.startswith("opt[") or ty.startswith("union[") or ty.startswith("maybe["):
+            return LazyInit(ty, hint)
+        return self.fresh_of_type(ty, hint)
 
     def fresh_like(self, v, hint):
         if isinstance(v, VBool):
